@@ -9,6 +9,7 @@ import (
 	"io"
 	"os"
 	"os/exec"
+	"path/filepath"
 	"runtime"
 	"sort"
 	"strconv"
@@ -22,7 +23,25 @@ import (
 	"github.com/taurusgroup/multi-party-sig/verif/scen"
 )
 
-const verifDir = "/verif"
+// verifDir is where evidence and replay files go (VERIF_OUT overrides it for background runs that must
+// not disturb the registered checks' files).
+var verifDir = func() string {
+	if d := os.Getenv("VERIF_OUT"); d != "" {
+		return d
+	}
+	return "/verif"
+}()
+
+// binDir is the directory of the running driver; external worker binaries are looked up next to it.
+func binDir() string {
+	exe, err := os.Executable()
+	if err != nil {
+		return "/verif/.bin"
+	}
+	return filepath.Dir(exe)
+}
+
+func extBin(p *fw.PropDef) string { return filepath.Join(binDir(), filepath.Base(p.External.Bin)) }
 
 func main() {
 	// external-worker mode (used for the race-detector build): VERIF_SPEC=worker,prop,tier,seed | case,prop,tier,seed,n | replay,path
@@ -142,7 +161,7 @@ type knownFile struct {
 
 func loadKnown() map[string]knownEntry {
 	out := map[string]knownEntry{}
-	b, err := os.ReadFile(verifDir + "/known_findings.json")
+	b, err := os.ReadFile("/verif/known_findings.json")
 	if err != nil {
 		return out
 	}
@@ -238,7 +257,7 @@ func drive(prop, tier string) int {
 				cmd := exec.Command(exe, "worker", prop, tier, strconv.FormatInt(seed, 10))
 				cmd.Env = append(os.Environ(), "GOMAXPROCS=2")
 				if p.External != nil {
-					cmd = exec.Command(p.External.Bin, p.External.Args...)
+					cmd = exec.Command(extBin(p), p.External.Args...)
 					cmd.Env = append(append(os.Environ(), "GOMAXPROCS=4", p.External.Env+"=worker,"+tier+","+strconv.FormatInt(seed, 10), "VERIF_SPEC_PROP="+prop), p.External.ExtraEnv...)
 				}
 				stdin, _ := cmd.StdinPipe()
@@ -308,7 +327,7 @@ func drive(prop, tier string) int {
 		cmd := exec.Command(exe, "case", prop, tier, strconv.FormatInt(seed, 10), strconv.Itoa(d.caseNo))
 		cmd.Env = append(os.Environ(), "GOMAXPROCS=2")
 		if p.External != nil {
-			cmd = exec.Command(p.External.Bin, p.External.Args...)
+			cmd = exec.Command(extBin(p), p.External.Args...)
 			cmd.Env = append(append(os.Environ(), "GOMAXPROCS=4", p.External.Env+"=case,"+tier+","+strconv.FormatInt(seed, 10)+","+strconv.Itoa(d.caseNo), "VERIF_SPEC_PROP="+prop), p.External.ExtraEnv...)
 		}
 		var eb strings.Builder
@@ -574,7 +593,7 @@ func replay(path string) int {
 	}
 	p := mustProp(rf.Property)
 	if p.External != nil {
-		cmd := exec.Command(p.External.Bin, p.External.Args...)
+		cmd := exec.Command(extBin(p), p.External.Args...)
 		cmd.Env = append(append(os.Environ(), p.External.Env+"=replay,"+path, "VERIF_SPEC_PROP="+rf.Property), p.External.ExtraEnv...)
 		cmd.Stdout, cmd.Stderr = os.Stdout, os.Stderr
 		if err := cmd.Run(); err != nil {
